@@ -111,6 +111,8 @@ def real_sweep(ctx):
     seconds = [None, SRC - 1, SRC + 1]
     combos = [c + (None,) for c in itertools.product(kinds, present, decoys, [False, True])]
     combos += [('any.multi', mt, (), rb, sec) for mt in present for rb in (False, True) for sec in seconds[1:]]
+    # the exact module name, also when it is not all upper case (SNMPv2-MIB): (combo, name)
+    combos = [(c, nm) for nm in ('TEST-MIB', 'TESTv2-Mib') for c in combos]
 
     def fn(rec, shard, nshards, seed, tier, extra):
         from pysmi.searcher.anyfile import AnyFileSearcher
@@ -121,7 +123,7 @@ def real_sweep(ctx):
         open(probe, 'w').close()
         case_sensitive = not os.path.exists(os.path.join(base, 'caseprobe'))
         try:
-            for n, (kind, mt, decoy, rebuild, second) in enumerate(combos):
+            for n, ((kind, mt, decoy, rebuild, second), name) in enumerate(combos):
                 if n % nshards != shard:
                     continue
                 pkgname = 'c10pkg_%d_%d' % (shard, n)
@@ -158,6 +160,8 @@ def real_sweep(ctx):
                         mk(name + '.pyo_', SRC + 5)
                     elif dk == 'lower' and case_sensitive:
                         mk(name.lower() + exts[0], SRC + 5)
+                        if name.upper() != name:
+                            mk(name.upper() + exts[0], SRC + 5)
                     elif dk == 'suffix':
                         mk(name + '-OLD' + exts[0], SRC + 5)
                         mk('X' + name + exts[0], SRC + 5)
@@ -202,7 +206,7 @@ def real_sweep(ctx):
                 rec.evaluated()
                 rec.count('kind.' + kind)
                 rec.count('answer.' + got)
-                case = {'kind': kind, 'dest_mtime_minus_source': None if mt is None else mt - SRC, 'decoys': list(decoy),
+                case = {'kind': kind, 'name': name, 'dest_mtime_minus_source': None if mt is None else mt - SRC, 'decoys': list(decoy),
                         'rebuild': rebuild, 'exts': exts, 'files': sorted(files),
                         'second_ext_mtime_minus_source': None if second is None else second - SRC}
                 if got != want:
